@@ -474,6 +474,9 @@ def main(argv=None):
                     timed_out = True
                     pool.terminate()
                     break
+            if not timed_out:
+                pool.close()
+                pool.join()
     results.sort(key=lambda r: (r[0], r[1]))
     for sub_name, shard, res in results:
         ps = per_sub.setdefault(sub_name, TaskResult())
